@@ -10,6 +10,7 @@ From Coq Require Import String Ascii List NArith Bool.
 From Tink Require Import Bytes UntrustedConsts Untrusted UntrustedSpec UntrustedProofs.
 From Coq Require Import ZArith.
 From Tink Require Import UntrustedSites UntrustedSitesProofs UntrustedPanicSites UntrustedPanicSitesTable UntrustedPrefix5Proofs.
+From Tink Require Import Secrets UntrustedParams UntrustedParamsSpec UntrustedParamsProofs.
 Import ListNotations.
 Open Scope list_scope.
 Open Scope N_scope.
@@ -379,7 +380,7 @@ Qed.
 (* STRETCH ROUND: the panic sites beyond the checked slices of the model.   *)
 (* proofs/UntrustedPanicSitesTable.v is a HAND-MADE table of the expressions *)
 (* on the untrusted-keyset path that Go or its standard library can make    *)
-(* panic, as far as a reading of the files found them (72 entries: file,    *)
+(* panic, as far as a reading of the files found them (81 entries: file,    *)
 (* function, expression, kind, guard, coverage).  Coq does NOT check that   *)
 (* the list is complete.  It checks the coverage column, and only for the   *)
 (* two constructors of fixed shape (model/UntrustedPanicSites.v):           *)
@@ -391,21 +392,25 @@ Qed.
 (* Entries tagged CArgued / CStdlib / CHarnessOnly carry no theorem.        *)
 (* ======================================================================== *)
 
-(* The table type-checks, i.e. each of its 10 CModel and 11 CLemma entries
+(* The table type-checks, i.e. each of its 15 CModel and 13 CLemma entries
    holds a function into `outcome`, an input on which the unguarded operation
-   panics, and a proof that the guarded one never does.  The other 51 entries
-   carry no theorem: 43 argued in prose (constant bounds, static types, values
+   panics, and a proof that the guarded one never does.  The other 53 entries
+   carry no theorem: 46 argued in prose (constant bounds, static types, values
    tink-go built itself, nil-safe getters = total getters of the model, integer
    conversions - which wrap rather than panic; their comparisons are the next
-   theorems), 6 inside the standard library, 2 decided by the harness alone.
+   theorems), 6 inside the standard library, 1 decided by the harness alone
+   (Handle.KeysetInfo's panic(err)).  Since the second stretch round the
+   parameters parsers reached through an ECIES DEM template, the PRF-based
+   deriver key parser and the nested-key detours of the composite parsers are
+   CModel entries (model/UntrustedParams.v).
    The counts are counts of constructors, not a measure of completeness. *)
 Theorem C14_panic_site_table_coverage :
-  (length panic_sites = 72)%nat /\
-  (UntrustedPanicSites.count by_model_theorem panic_sites = 10)%nat /\
-  (UntrustedPanicSites.count by_site_lemma panic_sites = 11)%nat /\
-  (UntrustedPanicSites.count argued_only panic_sites = 43)%nat /\
+  (length panic_sites = 81)%nat /\
+  (UntrustedPanicSites.count by_model_theorem panic_sites = 15)%nat /\
+  (UntrustedPanicSites.count by_site_lemma panic_sites = 13)%nat /\
+  (UntrustedPanicSites.count argued_only panic_sites = 46)%nat /\
   (UntrustedPanicSites.count is_stdlib panic_sites = 6)%nat /\
-  (UntrustedPanicSites.count is_harness_only panic_sites = 2)%nat.
+  (UntrustedPanicSites.count is_harness_only panic_sites = 1)%nat.
 Proof. exact panic_site_coverage_counts. Qed.
 Print Assumptions C14_panic_site_table_coverage.
 
@@ -476,3 +481,241 @@ Example C14_nonvacuous_sites :
   seg_check_ctr_go 16 16 4294967295 32 = false /\
   (int32_wrap (16 + 7 + 1 + 4294967271 + 1) <=? int32_of_u32 16)%Z = true.
 Proof. repeat split; vm_compute; reflexivity. Qed.
+
+
+(* ======================================================================== *)
+(* STRETCH ROUND 2 (model/UntrustedParams.v): the parameters parsers of     *)
+(* every registered key type, the PRF-based deriver key - the last key      *)
+(* parser that was not transcribed - and the key parsers that run ANOTHER   *)
+(* parser on nested untrusted bytes (ECIES: the DEM template's parameters   *)
+(* parser; composite ML-DSA and the deriver: ParseKey on nested key data),  *)
+(* written with that detour.  model/Untrusted.v is unchanged (C13 is stated *)
+(* over it); the theorems below say that its shortcuts were right, and      *)
+(* restate the top-level theorems for readers that decide EVERY registered  *)
+(* key type (xread ...: no keyset is left to the direct check any more).    *)
+(* ======================================================================== *)
+
+(* protoserialization.ParseParameters never panics: for every key template,
+   whatever type URL it names and however deeply templates nest (ECIES DEM
+   template, the two templates of a deriver format), with any fuel; and the
+   fuel S (length of the value) is never what stops the recursion. *)
+Theorem C14_parameters_parsers_never_panic :
+  (forall fuel t, parse_params fuel t <> Panic)
+  /\ (forall t, parse_params_full t <> Panic)
+  /\ (forall f t, (length (t_value t) < f)%nat -> parse_params f t = parse_params_full t).
+Proof. split; [exact parse_params_np|]. split; [exact parse_params_full_np|exact parse_params_fuel_adequate]. Qed.
+Print Assumptions C14_parameters_parsers_never_panic.
+
+(* On Ok the parameters object is well formed (UntrustedParamsSpec.params_wf:
+   every size, enum and exponent in the range the package documents), its type
+   is the one registered for the template's type URL, it asks for an id
+   requirement exactly when the template's prefix type is not RAW, and the
+   prefix type written back for it is the template's (LEGACY as CRUNCHY for
+   the packages without a legacy variant). *)
+Theorem C14_accepted_parameters_wellformed :
+  forall t p, parse_params_full t = Ok p ->
+    params_wf p
+    /\ qtag p = url_qtag (t_url t)
+    /\ params_has_idreq p = negb (t_prefix t =? 3)
+    /\ (params_prefix p = t_prefix t \/ (t_prefix t = 2 /\ params_prefix p = 4))
+    /\ 1 <= t_prefix t /\ t_prefix t <= 5.
+Proof.
+  intros t p H. pose proof (parse_params_facts _ _ _ H) as [A [B [C [D E]]]].
+  split; [exact A|]. split; [exact (parse_params_tag _ _ _ H)|]. auto.
+Qed.
+Print Assumptions C14_accepted_parameters_wellformed.
+
+(* ECIES: running the parameters parser the DEM template names (whatever its
+   type; prefix type forced to RAW) and comparing the object with the six
+   allowed parameter sets gives exactly what model/Untrusted.v computes from
+   the four allowed type URLs alone; hence the ECIES key parsers written with
+   the detour ARE the ones of that model. *)
+Theorem C14_ecies_dem_detour_is_the_shortcut :
+  (forall fs, let tm := template_of fs in
+     match parse_params_full (mkT (t_url tm) (t_value tm) pt_raw) with Ok p => dem_code p | _ => None end = ecies_dem fs)
+  /\ (forall (L : stdlib) kd prefix idreq,
+        parse_ecies_pub_x L kd prefix idreq = parse_ecies_pub L kd prefix idreq
+        /\ parse_ecies_priv_x L kd prefix idreq = parse_ecies_priv L kd prefix idreq).
+Proof.
+  split; [exact ecies_dem_agrees|]. intros L kd prefix idreq.
+  split; [apply parse_ecies_pub_x_eq|apply parse_ecies_priv_x_eq].
+Qed.
+Print Assumptions C14_ecies_dem_detour_is_the_shortcut.
+
+(* ParseKey with every detour the code takes - the nested PRF key of a deriver
+   and both nested keys of a composite key go to the parser of WHATEVER type
+   they name, recursively - never panics, with any fuel; with the fuel
+   S (length value) it is the recursion-free parse_key_flat: model/Untrusted.v's
+   parse_key for every type but the deriver (so a nested key of an unexpected
+   type is refused - as that model said - but only after its parser ran), and
+   for a deriver the parser with its nested key handed to that parse_key. *)
+Theorem C14_nested_parsers_never_panic_and_agree :
+  forall (L : stdlib) kd prefix idreq,
+    (forall fuel, parse_key_x L fuel kd prefix idreq <> Panic)
+    /\ parse_key_full L kd prefix idreq = parse_key_flat L kd prefix idreq
+    /\ (url_is kd u_deriver = false -> parse_key_full L kd prefix idreq = lift (parse_key L kd prefix idreq))
+    /\ (forall k, parse_key_full L kd prefix idreq = Ok k -> prim_ok_x L k <> Panic).
+Proof.
+  intros L kd prefix idreq. split; [intros fuel; apply parse_key_x_np|].
+  split; [apply parse_key_full_flat|]. split.
+  - intros U. rewrite parse_key_full_flat. unfold parse_key_flat. rewrite U. reflexivity.
+  - intros k. apply parse_then_prim_x_np.
+Qed.
+Print Assumptions C14_nested_parsers_never_panic_and_agree.
+
+(* What an accepted PRF-based deriver key is: labelled SYMMETRIC, version 0,
+   its nested key data were accepted by the parser of their own type (prefix
+   RAW, no id requirement) as an HKDF / HMAC / AES-CMAC PRF key, its derived
+   key template carries the key's own prefix type and was accepted by the
+   parameters parser of its type (hence a well-formed object), and a key
+   without id requirement was not given an id. *)
+Theorem C14_deriver_key_parts :
+  forall (L : stdlib) kd prefix idreq prf dp,
+    parse_key_full L kd prefix idreq = Ok (XDeriver prf dp) ->
+    let fs := fields_or_nil (kd_value kd) in
+    let tm := template_of (get_sub 1 (get_sub 3 fs)) in
+    url_is kd u_deriver = true /\ kd_mat kd = km_symmetric /\ get_u32 1 fs = 0
+    /\ prf_key_kind prf = true /\ parse_key L (keydata_of (get_sub 2 fs)) pt_raw 0 = Ok prf
+    /\ t_prefix tm = prefix /\ parse_params_full tm = Ok dp /\ pfacts tm dp
+    /\ (params_has_idreq dp = false -> idreq = 0).
+Proof. exact deriver_key_parts. Qed.
+Print Assumptions C14_deriver_key_parts.
+
+(* The readers over every registered key type never panic ... *)
+Theorem C14_all_types_readers_never_panic :
+  forall L : stdlib,
+    (forall b, xread L b <> Panic)
+    /\ (forall b, xread_no_secrets L b <> Panic)
+    /\ (forall ks, xread_proto L ks <> Panic)
+    /\ (forall ks, xhandle_no_secrets L ks <> Panic)
+    /\ (forall kek b ad, xread_encrypted L kek b ad <> Panic).
+Proof.
+  intros L. split; [exact (xread_np L)|]. split; [exact (xread_no_secrets_np L)|].
+  split; [exact (xread_proto_np L)|]. split; [exact (xhandle_no_secrets_np L)|exact (xread_encrypted_np L)].
+Qed.
+Print Assumptions C14_all_types_readers_never_panic.
+
+(* ... every handle they return is well formed (UntrustedParamsSpec.wf_xhandle:
+   the clauses of wf_handle, and deriver_wf for each PRF-based deriver key in
+   it) and its entries are the keys of the well-formed keyset in order; the
+   no-secrets readers hand out no deriver key (it serialises as SYMMETRIC) ... *)
+Theorem C14_all_types_accepted_handle_wellformed :
+  forall L : stdlib,
+    (forall b h, xread L b = Ok h -> exists ks, decode_keyset b = Some ks /\ xaccepted_as ks h)
+    /\ (forall b h, xread_no_secrets L b = Ok h ->
+          exists k, decode_keyset b = Some k /\ has_secrets k = false /\ xaccepted_as k h /\ xhandle_has_secrets h = false)
+    /\ (forall ks h, xread_proto L ks = Ok h -> exists k, ks = Some k /\ xaccepted_as k h)
+    /\ (forall ks h, xhandle_no_secrets L ks = Ok h ->
+          exists k, ks = Some k /\ has_secrets k = false /\ xaccepted_as k h /\ xhandle_has_secrets h = false)
+    /\ (forall kek b ad h, xread_encrypted L kek b ad = Ok h ->
+          exists ct pt k, decode_encrypted b = Some ct /\ kek ct ad = Some pt /\ decode_keyset pt = Some k /\ xaccepted_as k h)
+    /\ (forall h e prf dp, xhandle_has_secrets h = false -> In e h -> xkey e <> XDeriver prf dp).
+Proof.
+  intros L. split; [exact (xread_wf L)|]. split; [exact (xread_no_secrets_wf L)|]. split; [exact (xread_proto_wf L)|].
+  split; [exact (xhandle_no_secrets_wf L)|]. split; [exact (xread_encrypted_wf L)|exact no_secrets_no_deriver].
+Qed.
+Print Assumptions C14_all_types_accepted_handle_wellformed.
+
+(* ... a byte string yields a handle iff it decodes to a well-formed keyset all
+   of whose keys their own parser (deriver and nested parsers included)
+   accepts; malformed keysets are rejected by every reader ... *)
+Theorem C14_all_types_read_accepts_iff :
+  forall (L : stdlib) b,
+    (exists h, xread L b = Ok h) <->
+    (exists ks, decode_keyset b = Some ks /\ wf_keyset ks /\ Forall (xkey_parses L) (ks_keys ks)).
+Proof. exact xread_ok_iff. Qed.
+Print Assumptions C14_all_types_read_accepts_iff.
+
+Theorem C14_all_types_malformed_rejected :
+  forall (L : stdlib) ks, ~ wf_keyset ks ->
+    xread_proto L (Some ks) = Err
+    /\ xhandle_no_secrets L (Some ks) = Err
+    /\ (forall b, decode_keyset b = Some ks -> xread L b = Err /\ xread_no_secrets L b = Err)
+    /\ (forall kek b ad ct pt, decode_encrypted b = Some ct -> kek ct ad = Some pt -> decode_keyset pt = Some ks ->
+          xread_encrypted L kek b ad = Err).
+Proof. exact xmalformed_rejected_everywhere. Qed.
+Print Assumptions C14_all_types_malformed_rejected.
+
+(* ... and on keysets without a deriver key they ARE the readers of
+   model/Untrusted.v (every theorem above about read carries over). *)
+Theorem C14_all_types_readers_conservative :
+  forall (L : stdlib) b ks, decode_keyset b = Some ks -> any_deriver ks = false ->
+    xread L b = embed_handle (read L b)
+    /\ xhandle_from_proto L (Some ks) = embed_handle (handle_from_proto L (Some ks)).
+Proof. intros L b ks D H. split; [exact (xread_conservative L b ks D H)|exact (xhandle_conservative L ks H)]. Qed.
+Print Assumptions C14_all_types_readers_conservative.
+
+(* Minimum strengths with the deriver inside: a usable key of any other type
+   is strong (as before); a usable deriver key nests a usable, hence strong,
+   HKDF PRF key (>= 32 bytes: the property's HKDF-PRF clause). *)
+Theorem C14_all_types_usable_implies_strength :
+  forall (L : stdlib) kd prefix idreq, usable_x L kd prefix idreq = true ->
+    (url_is kd u_deriver = false -> strength_ok kd)
+    /\ (url_is kd u_deriver = true ->
+         let nk := keydata_of (get_sub 2 (fields_or_nil (kd_value kd))) in
+         is_url nk url_hkdf_prf /\ usable L nk pt_raw 0 = true /\ strength_ok nk
+         /\ 32 <= blen (get_len 3 (fields_or_nil (kd_value nk)))).
+Proof.
+  intros L kd prefix idreq H. split; [exact (usable_x_strength L kd prefix idreq H)|exact (usable_x_deriver L kd prefix idreq H)].
+Qed.
+Print Assumptions C14_all_types_usable_implies_strength.
+
+(* Non-vacuity.  A keyset with one PRF-based deriver key (HKDF-SHA256 key of 32
+   bytes, derived key template AES256-GCM, prefix TINK), serialized by the
+   deterministic encoder of model/Secrets.v, is read into the expected handle;
+   its primitive is created; model/Untrusted.v's reader answered the same bytes
+   with the fallback key.  With a 31-byte HKDF key the key parses and no
+   primitive is created; a template with another prefix type than the key's, a
+   deriver key as the PRF key of a deriver, and an AES-GCM key as PRF key are
+   refused.  Parameters: HMAC key_size has no upper bound (2^32-1 is accepted);
+   key_size 15 is refused; an ECIES format whose DEM template is itself a
+   (valid) deriver template is refused after that parser ran. *)
+Definition ser_template (t : template) : bytes :=
+  enc_bytes_field 1 (t_url t) ++ enc_bytes_field 2 (t_value t) ++ enc_var_field 3 (t_prefix t).
+Definition ex_hkdf_kd (n : nat) : keydata :=
+  mkKD u_hkdf_prf (enc_len_field 2 (enc_var_field 1 3) ++ enc_len_field 3 (repeat 7 n)) km_symmetric.
+Definition ex_gcm_template (prefix : N) : template := mkT u_aes_gcm (enc_var_field 2 32) prefix.
+Definition ex_deriver_kd (prf : keydata) (t : template) : keydata :=
+  mkKD u_deriver (enc_len_field 2 (ser_keydata prf) ++ enc_len_field 3 (enc_len_field 1 (ser_template t))) km_symmetric.
+Definition ex_deriver_bytes (kd : keydata) : bytes := ser_keyset (mkKS 5 [Some (mkPK (Some kd) 1 5 pt_tink)]).
+Definition ex_hmac_template (size : N) : template :=
+  mkT u_hmac (enc_len_field 1 (enc_var_field 1 3 ++ enc_var_field 2 16) ++ enc_var_field 2 size) pt_tink.
+Definition ex_deriver_format : bytes :=
+  enc_len_field 1 (ser_template (mkT u_hkdf_prf (enc_len_field 1 (enc_var_field 1 3) ++ enc_var_field 2 32) pt_raw))
+  ++ enc_len_field 2 (enc_len_field 1 (ser_template (ex_gcm_template pt_raw))).
+Definition ex_ecies_format (dem : template) : bytes :=
+  enc_len_field 1 (enc_len_field 1 (enc_var_field 1 2 ++ enc_var_field 2 3) ++ enc_len_field 2 (enc_len_field 2 (ser_template dem))
+                   ++ enc_var_field 3 1).
+
+Example C14_nonvacuous_deriver :
+  (exists e, xread std0 (ex_deriver_bytes (ex_deriver_kd (ex_hkdf_kd 32) (ex_gcm_template pt_tink))) = Ok [e]
+     /\ xkey e = XDeriver (PHkdfPrf 3 32) (QAesGcm 32 1) /\ xid e = 5 /\ xreq e = Some 5 /\ xshown_prefix e = 1
+     /\ prim_ok_x std0 (xkey e) = Ok true /\ wf_xhandle [e])
+  /\ (exists e, read std0 (ex_deriver_bytes (ex_deriver_kd (ex_hkdf_kd 32) (ex_gcm_template pt_tink))) = Ok [e]
+        /\ ekey e = PFallback false)
+  /\ usable_x std0 (ex_deriver_kd (ex_hkdf_kd 32) (ex_gcm_template pt_tink)) pt_tink 5 = true
+  /\ (exists k, parse_key_full std0 (ex_deriver_kd (ex_hkdf_kd 31) (ex_gcm_template pt_tink)) pt_tink 5 = Ok k
+        /\ prim_ok_x std0 k = Ok false)
+  /\ parse_key_full std0 (ex_deriver_kd (ex_hkdf_kd 32) (ex_gcm_template pt_raw)) pt_tink 5 = Err
+  /\ parse_key_full std0 (ex_deriver_kd (ex_deriver_kd (ex_hkdf_kd 32) (ex_gcm_template pt_raw)) (ex_gcm_template pt_tink)) pt_tink 5 = Err
+  /\ parse_key_full std0 (ex_deriver_kd (mkKD u_aes_gcm ex_aes_value km_symmetric) (ex_gcm_template pt_tink)) pt_tink 5 = Err
+  /\ parse_params_full (ex_hmac_template 4294967295) = Ok (QHmac 4294967295 16 3 1)
+  /\ parse_params_full (ex_hmac_template 15) = Err
+  /\ parse_params_full (mkT u_deriver ex_deriver_format pt_raw) = Ok (QDeriver (QHkdfPrf 32 3 []) (QAesGcm 32 3))
+  /\ parse_params_full (mkT u_ecies_priv (ex_ecies_format (ex_gcm_template pt_tink)) pt_tink) = Ok (QEcies 2 3 1 2 1 [])
+  /\ parse_params_full (mkT u_ecies_priv (ex_ecies_format (mkT u_deriver ex_deriver_format pt_raw)) pt_tink) = Err
+  /\ set_prefix_raw None = Panic.
+Proof.
+  split.
+  { assert (R : exists e, xread std0 (ex_deriver_bytes (ex_deriver_kd (ex_hkdf_kd 32) (ex_gcm_template pt_tink))) = Ok [e]
+       /\ xkey e = XDeriver (PHkdfPrf 3 32) (QAesGcm 32 1) /\ xid e = 5 /\ xreq e = Some 5 /\ xshown_prefix e = 1
+       /\ prim_ok_x std0 (xkey e) = Ok true).
+    { eexists. split; [vm_compute; reflexivity|]. vm_compute. auto. }
+    destruct R as [e [R1 R2]]. exists e. split; [exact R1|]. destruct R2 as [A [B [C [D E]]]].
+    split; [exact A|]. split; [exact B|]. split; [exact C|]. split; [exact D|]. split; [exact E|].
+    apply xread_wf in R1. destruct R1 as [ks [_ [_ [W _]]]]. exact W. }
+  split. { eexists. split; [vm_compute; reflexivity|]. reflexivity. }
+  split; [vm_compute; reflexivity|].
+  split. { eexists. split; [vm_compute; reflexivity|]. vm_compute. reflexivity. }
+  repeat split; vm_compute; reflexivity.
+Qed.
